@@ -668,15 +668,9 @@ pub fn parse_reference(input: &str) -> Result<String, ParseError> {
 pub fn split_at_first(input: &str, delimiter: char) -> (String, Option<String>) {
     if let Some(pos) = input.find(delimiter) {
         let (first, rest) = input.split_at(pos);
-        let rest = &rest[1..]; // Skip the delimiter
-        (
-            first.to_string(),
-            if rest.is_empty() {
-                None
-            } else {
-                Some(rest.to_string())
-            },
-        )
+        let rest = &rest[delimiter.len_utf8()..]; // Skip the delimiter
+        // The part after the delimiter is reported even when it is empty: "123/" is not "123"
+        (first.to_string(), Some(rest.to_string()))
     } else {
         (input.to_string(), None)
     }
